@@ -40,3 +40,72 @@ extern "C" void c11_rollback()
     verif_assert(fm._declarations[1].functor->body == &bodyG && fm._declarations[1].functor->name.compare("G") == 0, "C11: second function keeps its definition");
   }
 }
+
+// C11 kernel K1: symbols re-typed while parsing a text are restored by Context::parsingEnd(), whatever
+// sequence of registerSymbol calls the (rejected) text made. VX_STEPS calls, each on a symbolic name among
+// the existing variables A, B or a new name C, with a symbolic scalar type.
+#ifndef VX_STEPS
+#define VX_STEPS 2
+#endif
+static Type pick_type(int slot)
+{
+  int k = in_int(slot); verif_assume(k >= 0 && k < 4);
+  return k == 0 ? Type(Type::BOOLEAN) : k == 1 ? Type(Type::INTEGER) : k == 2 ? Type(Type::NUMERIC) : Type(Type::LITERAL);
+}
+static void one_step(Context& ctx, int slot)
+{
+  int who = in_int(8 + slot); verif_assume(who >= 0 && who < 3);
+  Type t = pick_type(slot);
+  try {
+    if (who == 0) ctx.registerSymbol("A", t);
+    else if (who == 1) ctx.registerSymbol("B", t);
+    else ctx.registerSymbol("C", t);
+  } catch (ParseError&) { /* a rejected registration ends the text: parsingEnd follows */ }
+}
+extern "C" void c11_symbols()
+{
+  static Context ctx(1, 2);
+  ctx._storage_pool.reserve(3); ctx._backed_symbols.reserve(VX_STEPS);
+  Type ta = pick_type(6), tb = pick_type(7);
+  bool sa = in_bool(0);
+  ctx.registerSymbol("A", ta); ctx.registerSymbol("B", tb);
+  ctx.getSymbol(0).safety(sa);
+  ctx.parsingBegin();
+  one_step(ctx, 0);
+  if (VX_STEPS > 1) one_step(ctx, 1);
+  if (VX_STEPS > 2) one_step(ctx, 2);
+  ctx.parsingEnd();
+  VX_WITNESS();
+  verif_assert(ctx.getSymbol(0) == ta && ctx.getSymbol(0).name().compare("A") == 0, "C11: variable A keeps its type after the text is abandoned");
+  verif_assert(ctx.getSymbol(1) == tb && ctx.getSymbol(1).name().compare("B") == 0, "C11: variable B keeps its type after the text is abandoned");
+  verif_assert(ctx.getSymbol(0).safety() == sa && !ctx.getSymbol(0).locked() && !ctx.getSymbol(1).safety(), "C11: constraints of existing variables unchanged");
+  verif_assert(ctx._backed_symbols.empty() && !ctx.parsing(), "C11: no backup is left behind, parsing mode is closed");
+}
+
+// C11 kernel K1b: Context::parsingEnd() alone, from an arbitrary list of VX_STEPS backups as registerSymbol leaves them
+// (entry j holds the type symbol id_j had just before its j-th re-typing). Afterwards every re-typed symbol must be
+// back to the type of its EARLIEST backup.
+extern "C" void c11_parsing_end()
+{
+  static Context ctx(1, 2);
+  ctx._storage_pool.reserve(2);
+  Type ta = pick_type(6), tb = pick_type(7);
+  ctx._storage_pool.push_back(Context::MemorySlot(Symbol(0, "A", ta)));
+  ctx._storage_pool.push_back(Context::MemorySlot(Symbol(1, "B", tb)));
+  ctx._backed_symbols.reserve(VX_STEPS);
+  Type cur[2] = { ta, tb };
+  for (int j = 0; j < VX_STEPS; ++j) {
+    bool onB = in_bool(j);
+    Type nt = pick_type(j);
+    /* what registerSymbol does: back up the current symbol, then upgrade it */
+    ctx._backed_symbols.push_back(Symbol(onB ? 1 : 0, onB ? "B" : "A", cur[onB ? 1 : 0]));
+    cur[onB ? 1 : 0] = nt;
+    ctx.getSymbol(onB ? 1 : 0).upgrade(nt);
+  }
+  ctx._parsing = true;
+  ctx.parsingEnd();
+  VX_WITNESS();
+  verif_assert(ctx.getSymbol(0) == ta, "C11: variable A is back to its type from before the abandoned text");
+  verif_assert(ctx.getSymbol(1) == tb, "C11: variable B is back to its type from before the abandoned text");
+  verif_assert(ctx._backed_symbols.empty() && !ctx.parsing(), "C11: no backup is left behind, parsing mode is closed");
+}
